@@ -310,7 +310,7 @@ theorem totalLE_nameOps : TotalLE (fun a b : Name => !nameOps.lt b a) := by
   · intro a b c h1 h2
     cases a <;> cases b <;> cases c <;>
       simp only [nameOps, Name.lt, Bool.not_eq_true', decide_eq_false_iff_not, Int.not_lt,
-        String.not_lt, Bool.not_true, Bool.not_false, Bool.false_eq_true, Bool.true_eq_false] at * <;>
+        String.not_lt, Bool.not_true, Bool.not_false, Bool.false_eq_true] at * <;>
       first
         | omega
         | exact String.le_trans h1 h2
@@ -319,7 +319,7 @@ theorem totalLE_nameOps : TotalLE (fun a b : Name => !nameOps.lt b a) := by
   · intro a b
     cases a <;> cases b <;>
       simp only [nameOps, Name.lt, Bool.or_eq_true, Bool.not_eq_true', decide_eq_false_iff_not,
-        Int.not_lt, String.not_lt, Bool.not_true, Bool.not_false, or_true, true_or, or_self] <;>
+        Int.not_lt, String.not_lt, Bool.not_true, Bool.not_false, or_true, true_or] <;>
       first
         | omega
         | exact (String.le_total _ _).symm
@@ -328,7 +328,7 @@ theorem totalLE_nameOps : TotalLE (fun a b : Name => !nameOps.lt b a) := by
   · intro a b h1 h2
     cases a <;> cases b <;>
       simp only [nameOps, Name.lt, Bool.not_eq_true', decide_eq_false_iff_not, Int.not_lt,
-        String.not_lt, Bool.not_true, Bool.not_false, Bool.false_eq_true, Bool.true_eq_false] at * <;>
+        String.not_lt, Bool.not_true, Bool.not_false, Bool.false_eq_true] at * <;>
       first
         | (congr 1; omega)
         | (congr 1; exact String.le_antisymm h1 h2)
